@@ -19,7 +19,7 @@ MIN_NONTRIVIAL = {"quick": 300, "thorough": 3000}
 RULE = ("cases = a container or data-class type (List/Set/FrozenSet/Deque/Tuple[T,...]/Tuple[T1,T2]/Dict[K,V] over element types int, "
         "int>=0 (a Rule), str(max_length 2), float, date, Optional[int], nested one level: List[List[int]], Dict[str,List[int]], "
         "List[Dict[str,int]], Tuple[List[int],...]; Schema/DataClass with 1-4 fields (required / default, per-field on_error, "
-        "typed addition, Field(dependencies=...) between the fields; 4%: a field holding Union[A, B] of data classes chosen by Field(discriminator=...), "
+        "typed addition, Field(dependencies=...) between the fields, Field(required='w'/'r'/'rw', default=...) under Options(mode=...); 4%: a field holding Union[A, B] of data classes chosen by Field(discriminator=...), "
         "given fine / bad-content / unmatched-tag / non-mapping / JSON-text members); def f(*args: T)) x one of the 27 (invalid_items, invalid_keys, invalid_values) triples x 6 inputs with "
         "every subset of <=3 bad positions (first, middle, last, all, none) in list / tuple / set / deque input shapes. Expected "
         "result is rebuilt from per-element probes. Non-trivial = at least one element is offending and a non-throw policy governs "
@@ -217,6 +217,15 @@ def make_case(i, rng, tier):
             on_error = None
         fields.append(("f%d" % j, fs, required, default, on_error))
     addition = rng.choice([None, None, True, False, "int"])
+    # a field that is required in some modes only (and keeps a default for the others), parsed under Options(mode=...)
+    mode = rng.choice([None, None, "r", "w"])
+    req_mode = {}
+    for j, (name, fs, required, default, on_error) in enumerate(fields):
+        if not required and default != "<none>" and rng.random() < 0.3:
+            req_mode[name] = rng.choice(["w", "r", "rw"])
+            if on_error == "exclude":
+                # (Field rejects on_error='exclude' next to any required=...: the exclusion then comes from invalid_values)
+                fields[j] = (name, fs, required, default, None)
     deps = {}
     if n > 1 and rng.random() < 0.35:
         # Field(dependencies=[...]): the field may only be given together with another one
@@ -237,7 +246,7 @@ def make_case(i, rng, tier):
             d[rng.choice(["extra", "zz"])] = rng.choice([1, "2", "x", [1, 2]])
         inputs.append(d)
     return {"kind": "dc", "base": rng.choice(["Schema", "Schema", "DataClass"]), "fields": fields, "addition": addition, "pol": pol, "inputs": inputs,
-            "strategy": rng.choice([None, True, False]), "deps": deps}
+            "strategy": rng.choice([None, True, False]), "deps": deps, "mode": mode, "req_mode": req_mode}
 
 
 # ---- the oracle -----------------------------------------------------------------------------------
@@ -442,12 +451,16 @@ def run_case(case, ctx):
         opt_kw["addition"] = int if case["addition"] == "int" else case["addition"]
     if case["strategy"] is not None:
         opt_kw["data_first_search"] = case["strategy"]
+    if case.get("mode"):
+        opt_kw["mode"] = case["mode"]
+    req_mode = case.get("req_mode", {})
+    in_mode = lambda name: bool(case.get("mode")) and name in req_mode and case["mode"] in req_mode[name]
     ns = {"__annotations__": {}, "__module__": "vmon_generated", "__qualname__": "D11", "__options__": O(**opt_kw)}
     for name, fs, required, default, on_error in fields:
         ns["__annotations__"][name] = annotation(fs)
         kw = {}
         if not required:
-            kw["required"] = False
+            kw["required"] = req_mode.get(name, False)
             if default != "<none>":
                 kw["default"] = default
         if on_error:
@@ -468,6 +481,7 @@ def run_case(case, ctx):
                 exp_d = {}
                 given = set()
                 for name, fs, required, default, on_error in fields:
+                    required = required or in_mode(name)
                     if name not in d:
                         if required:
                             raise Reject()
@@ -528,7 +542,8 @@ def run_case(case, ctx):
                     return dict(inst)
                 return {k: v for k, v in inst.__dict__.items() if not k.startswith("__")}
             out = run(thunk)
-            shp = ("dc", case["base"], tuple((shape_of(f[1]), f[2], f[3] != "<none>", f[4]) for f in fields), case["addition"], case["strategy"], tuple(sorted(case.get("deps", {}).items())))
+            shp = ("dc", case["base"], tuple((shape_of(f[1]), f[2], f[3] != "<none>", f[4]) for f in fields), case["addition"], case["strategy"], tuple(sorted(case.get("deps", {}).items())),
+                   case.get("mode"), tuple(sorted(req_mode.items())))
             judge(ctx, case, shp, pol, d, exp, out, stats)
     finally:
         _drop(cls)
